@@ -53,6 +53,13 @@ def build_cases(tier):
             names = [d.name.value for d in parse(q).definitions if d.kind == "operation_definition"]
             cases.append(dict(family="mixin", schema=corpus.SCHEMA_K, doc_text=q, ops=[{"name": n, "kwargs": {}} for n in names], tags={f"mixin:{label}"} | ({"extract_plugin"} if plug else set()),
                               options=dict({"files_to_include": ["@mixins.py"]}, **({"plugins": [EXTRACT]} if plug else {})), files={"mixins.py": MIX}))
+    for label, (opn, q) in corpus2.LOCAL_NAME_OPS.items():
+        for cfg in ({}, {"async_client": False}, {"plugins": [EXTRACT]}, {"opentelemetry_client": True}):
+            sub = label.startswith("subscription")
+            if sub and cfg.get("async_client") is False:
+                continue
+            cases.append(dict(family="local_names", schema=corpus2.SCHEMA_L, doc_text=q + "\n", ops=[{"name": opn, "kwargs": corpus2.LOCAL_NAME_KWARGS[opn], "subscription": sub}],
+                              tags={f"localnames:{label}"} | {f"cfg:{k}" for k in cfg}, options=cfg))
     graph_sets = [(2, FT4), (3, ("User", "Node"))] if tier == "quick" else [(2, FT4), (3, ("User", "Node", "Named")), (4, ("User", "Node"))]
     for nf, ts in graph_sets:
         for g in corpus2.fragment_graphs(nf, ts):
@@ -98,7 +105,7 @@ def main(tier):
                 stats["invalid_inputs_skipped"] += 1
                 continue
             stats["generation_failures"] += 1
-            if c["family"] not in ("literal", "mixin"):
+            if c["family"] not in ("literal", "mixin", "local_names"):
                 continue  # generation/import failures of grammar and fragment-graph inputs are C01/C04/C08's subject
             rep.violation(f'{r["status"]}:{r.get("gen_error_type")}', F(), r["gen_error"], desc)
             continue
